@@ -18,6 +18,33 @@ fn main() {
         }
         return;
     }
+    if args.len() >= 3 && args[1] == "sched" {
+        // vcheck sched <query> [--setup s]... [--dev N] [--spur N] [--threads N]
+        let mut shape = vharness::sched::Shape::new("cli", &[], &args[2]);
+        let mut cfg = vharness::sched::ExploreCfg { max_dev: None, max_spurious: 0, wall_cap: std::time::Duration::from_secs(120), exec_cap: u64::MAX, threads: vharness::infra::threads() };
+        let mut i = 3;
+        while i + 1 < args.len() {
+            match args[i].as_str() {
+                "--setup" => shape.setup.push(args[i + 1].clone()),
+                "--perrun" => shape.per_run.push(args[i + 1].clone()),
+                "--observe" => shape.observe.push(args[i + 1].clone()),
+                "--dev" => cfg.max_dev = Some(args[i + 1].parse().unwrap()),
+                "--spur" => cfg.max_spurious = args[i + 1].parse().unwrap(),
+                "--threads" => cfg.threads = args[i + 1].parse().unwrap(),
+                "--wall" => cfg.wall_cap = std::time::Duration::from_secs(args[i + 1].parse().unwrap()),
+                _ => {}
+            }
+            i += 2;
+        }
+        let t = std::time::Instant::now();
+        let r = vharness::sched::explore(&shape, &cfg);
+        println!("executions={} steps={} max_len={} max_width={} tasks={} event_orders={} outcomes={} complete={} errors={} violations={} machinery={:?} in {:.2}s", r.executions, r.steps, r.max_len, r.max_width, r.n_tasks, r.distinct_event_orders, r.distinct_outcomes, r.complete, r.error_executions, r.violations.len(), r.machinery, t.elapsed().as_secs_f64());
+        for v in r.violations.iter().take(5) {
+            println!("  VIOL {} sched={:?} expected={} observed={}", v.class, v.schedule, v.expected, v.observed);
+        }
+        println!("  samples: {:?}", r.sample_schedules);
+        return;
+    }
     if args.len() >= 2 && args[1] == "terms" {
         let depth: usize = args.get(2).and_then(|s| s.parse().ok()).unwrap_or(1);
         let full = args.get(3).map(|s| s == "full").unwrap_or(false);
@@ -45,6 +72,7 @@ fn main() {
             "C01" => vharness::checks::c01::run(tier),
             "C02" => vharness::checks::c02::run(tier),
             "C03" => vharness::checks::c03::run(tier),
+            "C04" => vharness::checks::c04::run(tier),
             other => {
                 eprintln!("unknown check {other}");
                 2
